@@ -74,6 +74,8 @@ size_t vf_stream_len(std::ostream *);
 uint8_t vf_stream_byte(std::ostream *, size_t i);
 void vf_stream_set_byte(std::istream *, size_t i, uint8_t b);
 void vf_stream_set_u32(std::istream *, size_t i, uint32_t w);
+size_t vf_istream_pos(std::istream *);      // bytes consumed so far
+size_t vf_istream_nreads(std::istream *);   // read() calls made so far
 }
 
 #define VF_NEVER (~size_t(0))
